@@ -10,5 +10,6 @@ CONSTANTS
   MaxGen = 2
   CfgSW = FALSE
   CfgNidl = TRUE
+  CfgSO = FALSE
 INVARIANTS InvC10
 CHECK_DEADLOCK FALSE
